@@ -42,7 +42,6 @@ class Helper:
         it = Interp(self.db, self.sp)
         it.construct_hook = self.construct
         it.intercept['match'] = self.rule_call
-        it.intercept['memchr'] = self.memchr
         self.it = it
         return it
 
